@@ -64,9 +64,9 @@ func spellings() []spelling {
 	}
 
 	targets := []tgt{
-		{"outside/secret.txt", q("abs", "dotdot", "nested-dotdot", "separators", "abs-through-root", "abs-separators", "dot-dotdot")},
-		{"outside/sub", q("abs", "dotdot")},
-		{"outside/new.txt", q("abs", "dotdot", "abs-through-root")},
+		{"outside/secret.txt", q("abs", "dotdot", "nested-dotdot", "separators", "abs-through-root")},
+		{"outside/sub", q("dotdot")},
+		{"outside/new.txt", q("abs", "dotdot")},
 		{"outside/secret.db", q("abs")},
 		{"outside", q()},
 		{"sandbox-evil/new.txt", q()},
@@ -100,13 +100,13 @@ func spellings() []spelling {
 			c = "abs"
 		}
 
-		out = append(out, spelling{Class: c, Path: p, Quick: i < 2})
+		out = append(out, spelling{Class: c, Path: p, Quick: i < 1})
 	}
 
 	// the sibling whose name starts with the root's name
 	out = append(out,
 		spelling{Class: "prefix-sibling", Path: "${S}-evil/secret.txt", Quick: true},
-		spelling{Class: "prefix-sibling", Path: "${S}-evil/new.txt", Quick: true},
+		spelling{Class: "prefix-sibling", Path: "${S}-evil/new.txt"},
 		spelling{Class: "prefix-sibling", Path: "${S}-evil"},
 		spelling{Class: "prefix-sibling", Path: "${S}-evil/" + "sub/../secret.txt"},
 	)
@@ -118,15 +118,16 @@ func spellings() []spelling {
 		}
 	}
 
-	ln("link-file-abs", 1, "lnfile", "${S}/lnfile", "./lnfile", "in/../lnfile")
-	ln("link-dir-rel", 3, "lndir/secret.txt", "lndir/new.txt", "lndir/sub", "lndir", "lndir/secret.db", "${S}/lndir/secret.txt", "lndir//secret.txt", "lndir/./secret.txt")
+	ln("link-file-abs", 1, "lnfile", "./lnfile", "in/../lnfile")
+	ln("link-dir-rel", 2, "lndir/secret.txt", "lndir/new.txt", "lndir/sub", "lndir", "lndir/secret.db", "lndir//secret.txt", "lndir/./secret.txt")
 	ln("link-parent", 1, "up/outside/secret.txt", "up/outside/new.txt", "up/outside/sub", "up", "up/sandbox-evil/secret.txt")
 	ln("link-chain", 1, "a/secret.txt", "a/new.txt", "a/sub", "a")
-	ln("link-nested", 1, "in/deep/secret.txt", "in/deep/new.txt", "in/deep/sub", "${S}/in/deep/secret.txt")
-	ln("link-dangling-file", 2, "dangle", "dangle2", "${S}/dangle", "./dangle")
-	ln("link-dangling-dir", 1, "dangledir/x.txt", "dangledir")
+	ln("link-nested", 1, "in/deep/secret.txt", "in/deep/new.txt", "in/deep/sub")
+	ln("link-dangling-file", 1, "dangle", "dangle2", "./dangle", "${S}/dangle", "dangledir")
+	ln("link-dangling-dir", 1, "dangledir/x.txt", "dangledir/sub/x.txt")
 	ln("link-prefix-sibling", 1, "lnevil/secret.txt", "lnevil/new.txt", "lnevil")
-	ln("link-then-dotdot", 2, "lndir/sub/../secret.txt", "in/deep/../outside/secret.txt", "lndir/../outside/secret.txt", "a/sub/../new.txt")
+	ln("link-then-dotdot", 1, "lndir/sub/../secret.txt", "in/deep/../outside/secret.txt", "lndir/../outside/secret.txt", "a/sub/../new.txt")
+	ln("link-abs-spelling", 2, "${S}/lndir/secret.txt", "${S}/lndir/new.txt", "${S}/lnfile", "${S}/in/deep/secret.txt", "${S}/up/outside/secret.txt")
 
 	return out
 }
@@ -266,6 +267,10 @@ func main() {
 
 		nString++
 
+		if only := os.Getenv("VERIF_C26_ONLY"); only != "" && !strings.Contains(c.key(), only) {
+			continue
+		}
+
 		if why := excludedPkgs[c.Pkg]; why != "" {
 			nExcluded++
 
@@ -296,10 +301,6 @@ func main() {
 
 	sp := spellings()
 	modes := []string{"run", "handler"}
-
-	if r.Thorough() {
-		modes = append(modes, "debug")
-	}
 
 	var cases []kase
 
@@ -370,12 +371,6 @@ func main() {
 		workers = append(workers, startWorker(scratch, i, "handler"))
 	}
 
-	if r.Thorough() {
-		for i := 0; i < nHandler; i++ {
-			workers = append(workers, startWorker(scratch, i, "debug"))
-		}
-	}
-
 	snaps := map[*worker][2]map[bool]map[string]entry{}
 
 	for _, w := range workers {
@@ -409,6 +404,9 @@ func main() {
 		wg      sync.WaitGroup
 		stats   = map[string]int64{}
 		reach   = map[string]bool{}
+		diedAt  = map[string]int{}
+
+		notCompiled = map[string]string{}
 	)
 
 	for _, w := range workers {
@@ -430,6 +428,11 @@ func main() {
 
 				if res.died {
 					stats["cases_worker_died"]++
+					diedAt[k.Fn+" "+k.Class]++
+				}
+
+				if !res.begin && !res.died {
+					notCompiled[k.Fn] = excerpt(res.out)
 				}
 
 				if res.begin {
@@ -455,6 +458,14 @@ func main() {
 
 	for _, w := range workers {
 		w.stop()
+	}
+
+	for _, k := range sortedKeysInt(diedAt) {
+		fmt.Printf("INFO worker died (no verdict from the output; the world was still checked): %s x%d\n", k, diedAt[k])
+	}
+
+	for _, k := range sortedKeys(notCompiled) {
+		fmt.Printf("INFO program did not start: %s: %s\n", k, strings.ReplaceAll(notCompiled[k], "\n", " | "))
 	}
 
 	// ---- cells
@@ -512,7 +523,7 @@ func main() {
 	for _, cell := range names {
 		ci := cells[cell]
 
-		sort.SliceStable(ci.list, func(i, j int) bool { return len(ci.list[i].k.Prog) < len(ci.list[j].k.Prog) })
+		sort.SliceStable(ci.list, func(i, j int) bool { return witnessSize(ci.list[i].k) < witnessSize(ci.list[j].k) })
 
 		confirmed := false
 
@@ -537,7 +548,7 @@ func main() {
 			msg := fmt.Sprintf("%s(%s=%q) under the sandbox (%s) reached outside the root: %s", res.k.Fn, res.k.Param, res.k.Path, res.k.Mode, describe(eff))
 
 			for range ci.list {
-				r.Violation(cell, len(res.k.Prog), wit, msg)
+				r.Violation(cell, witnessSize(res.k), wit, msg)
 			}
 
 			break
@@ -572,7 +583,15 @@ func main() {
 	r.Set("excluded", strings.Join(exclNames, ",")+",packages:"+strings.Join(sortedKeys(excludedPkgs), ","))
 	r.Set("function_parameter_pairs", len(pairs))
 	r.Set("spellings", len(sp))
-	r.Set("spellings_in_tier", len(cases)/max(1, len(modes))/max(1, len(pairs)))
+	nTier := 0
+
+	for _, x := range sp {
+		if r.Thorough() || x.Quick {
+			nTier++
+		}
+	}
+
+	r.Set("spellings_in_tier", nTier)
 	r.Set("violating_cases", len(results))
 	r.Set("confirmed_fresh", nConfirmed)
 	r.Set("unconfirmed_fresh", nUnconfirmed)
@@ -599,6 +618,33 @@ func main() {
 	r.Finish()
 }
 
+// witnessSize prefers the plain command line run, the plainest spelling and
+// the shortest program.
+func witnessSize(k kase) int {
+	n := len(k.Prog) + len(k.Path)
+
+	if k.Mode != "run" {
+		n += 100000
+	}
+
+	if k.Class != "abs" {
+		n += 10000
+	}
+
+	return n
+}
+
+func sortedKeysInt(m map[string]int) []string {
+	var out []string
+	for k := range m {
+		out = append(out, k)
+	}
+
+	sort.Strings(out)
+
+	return out
+}
+
 func sortedKeys(m map[string]string) []string {
 	var out []string
 	for k := range m {
@@ -612,6 +658,15 @@ func sortedKeys(m map[string]string) []string {
 
 func effectStrings(eff []effect) []string {
 	var out []string
+
+	rank := map[string]int{}
+	for i, o := range effectOrder {
+		rank[o] = i
+	}
+
+	eff = append([]effect(nil), eff...)
+	sort.SliceStable(eff, func(i, j int) bool { return rank[eff[i].Kind] < rank[eff[j].Kind] })
+
 	for _, e := range eff {
 		out = append(out, e.Kind+": "+e.Detail)
 	}
